@@ -169,3 +169,26 @@ def scrape_cflags(cdefs):
         if cc not in tables or "cflags_base" not in tables[cc]:
             raise RuntimeError("cdefs.lua: compilers_flags.%s.cflags_base not found" % cc)
     return tables
+
+
+def scrape_div_guard(cbuiltins):
+    """Where the `b == -1` line of nelua_idiv_/nelua_imod_ is emitted: True = before `if checked then`
+    (every variant has the guard), False = only inside the checked branch."""
+    out = {}
+    for name in ("idiv", "imod"):
+        m = re.search(r"function cbuiltins\.nelua_%s_\(context, type, checked\)(.*?)\nend\n" % name, cbuiltins, re.S)
+        if not m:
+            raise RuntimeError("cbuiltins.lua: nelua_%s_ not found" % name)
+        body = m.group(1)
+        g = body.find("b == -1")
+        c = re.search(r"\n\s*if checked then", body)
+        e = re.search(r"\n  end\n", body[c.start():]) if c else None
+        if g < 0 or not c or not e:
+            raise RuntimeError("cbuiltins.lua: cannot locate the b == -1 guard / `if checked then` of nelua_%s_" % name)
+        if g < c.start():
+            out[name] = True
+        elif g < c.start() + e.start():
+            out[name] = False
+        else:
+            out[name] = True      # after the checked block: still unconditional
+    return out
